@@ -318,9 +318,18 @@ class Report(object):
         rc = 0
         out_lines = []
         for sig, c in sorted(known_hits.items()):
-            out_lines.append('KNOWN-FINDING: property=%s %s (matched %d transitions)' %
-                             (self.prop, known.open.get((self.prop, sig), sig), c))
+            txt = known.open.get((self.prop, sig), 'sig=' + sig)
+            if txt.startswith('property=%s ' % self.prop):
+                txt = txt[len('property=%s ' % self.prop):]
+            out_lines.append('KNOWN-FINDING: property=%s %s (matched %d transitions in this run)' % (self.prop, txt, c))
         nviol = 0
+        rdir = os.path.join(VERIF, 'replays', self.prop)
+        if os.path.isdir(rdir) and not os.environ.get('VERIF_KEEP_REPLAYS'):
+            for fn in os.listdir(rdir):
+                try:
+                    os.remove(os.path.join(rdir, fn))
+                except OSError:
+                    pass
         for i, (r, v) in enumerate(violations):
             path = os.path.join(VERIF, 'replays', self.prop, '%s_%d.json' % (
                 r.name.replace('/', '_').replace(' ', '_')[:80], i))
